@@ -26,7 +26,7 @@ LEVEL = "fault_enumeration"
 TECHNIQUE = "exhaustive fault-position enumeration (every function call as the failing one) x exception types x execution modes, with all deviation-bounded task schedules explored for the executor modes"
 RULE = ("mapped pipelines of C03's family and G-DAG pipelines N<=2 with all decorations (thorough: N=3), including histories of two failures on one pipeline object, x every (function, call index) as the failing invocation x "
         "exception {ValueError('boom', k), KeyError(), custom picklable class with an attribute} x {pipeline(), run, func(), sequential map, deferred executor: every "
-        "schedule with <= B deviations, sync and async, real thread pool, real process pool (thorough)}. non-trivial = distinct (pipeline, failing function, call index, "
+        "schedule with <= B deviations, sync and async, real thread pool, real process pool (thorough), sequential with show_progress=True, sequential with profile=True (one pipeline; nothing may be left running)}. non-trivial = distinct (pipeline, failing function, call index, "
         "exception type, mode) where the failing call is not the first call of the run")
 ASSUMPTIONS = ["'loadable afterwards' is demanded for file_array storage (dict storages persist only at the end of a successful run)",
                "for pipeline()/run the 'later generation' clause is checked as: nothing runs after the failing call and no dependent of the failing function ran",
@@ -64,6 +64,10 @@ EXC = {
     "Custom": lambda k: CustomError("custom-boom", 40 + k),
     "Noted": _noted,
 }
+# exceptions that only the in-process sequential map can carry unchanged (a StopIteration cannot be set on an asyncio
+# future, and a process pool re-creates it): used for mode "sequential" only
+EXC_SEQUENTIAL_ONLY = {"StopIteration": lambda k: StopIteration("stop", k)}
+EXC_ALL = {**EXC, **EXC_SEQUENTIAL_ONLY}
 
 
 def make_hook(fault, seen):
@@ -74,12 +78,12 @@ def make_hook(fault, seen):
         if name == fault["func"] and counter[name] == fault["call"]:
             seen["kwargs"] = {k: terms.T(v) for k, v in kw.items()}
             seen["raw"] = dict(kw)
-            raise EXC[fault["exc"]](fault["call"])
+            raise EXC_ALL[fault["exc"]](fault["call"])
     return hook
 
 
 def same_exc(e, fault):
-    want = EXC[fault["exc"]](fault["call"])
+    want = EXC_ALL[fault["exc"]](fault["call"])
     return type(e) is type(want) and e.args == want.args and getattr(e, "code", None) == getattr(want, "code", None)
 
 
@@ -153,7 +157,7 @@ def sticky_hook(fault, seen):
             if "kwargs" not in seen:
                 seen["kwargs"] = key
                 seen["raw"] = dict(kw)
-            raise EXC[fault["exc"]](fault["call"])
+            raise EXC_ALL[fault["exc"]](fault["call"])
     return hook
 
 
@@ -166,8 +170,73 @@ def args_hook(fault, spec, inputs):
 
     def hook(name, kw):
         if name == fault["func"] and ",".join(terms.T(kw[p]) for p in params) == target:
-            raise EXC[fault["exc"]](fault["call"])
+            raise EXC_ALL[fault["exc"]](fault["call"])
     return hook
+
+
+def profile_fault_case(cfg, fault):
+    """a failing invocation with profile=True (each call is wrapped in a ResourceProfiler with a measuring thread): the
+    failure surfaces AND nothing is left running. Runs in a forked child that ends with os._exit, watched with a timeout."""
+    import pickle
+    import tempfile
+    import threading
+    import time as _time
+    spec = c03.PIPES[cfg["pipe"]]
+    inputs = gen_map.make_inputs(spec, "list")
+    base = {"pipe": cfg["pipe"], "mode": "sequential-profile", "exc_type": fault["exc"]}
+    fd, out = tempfile.mkstemp(prefix="c13p-", dir=boot.scratch_root())
+    os.close(fd)
+    pid = os.fork()
+    if pid == 0:
+        res = {"raised": None, "same": False, "alive": []}
+        try:
+            seen = {}
+            with contextlib.redirect_stdout(io.StringIO()), warnings.catch_warnings():
+                warnings.simplefilter("ignore")
+                p = gen_map.build(spec, hook=sticky_hook(fault, seen), profile=True)
+                try:
+                    p.map(dict(inputs), parallel=False, storage="dict")
+                except Exception as e:  # noqa: BLE001
+                    res["raised"] = type(e).__name__
+                    res["same"] = same_exc(e, fault)
+            _time.sleep(0.4)
+            res["alive"] = [t.name for t in threading.enumerate() if t is not threading.main_thread() and t.is_alive()]
+        except BaseException as e:  # noqa: BLE001
+            res["harness"] = repr(e)
+        finally:
+            with open(out, "wb") as fh:
+                fh.write(pickle.dumps(res))
+            os._exit(0)
+    t0 = _time.time()
+    hung = False
+    while True:
+        done, _st = os.waitpid(pid, os.WNOHANG)
+        if done:
+            break
+        if _time.time() - t0 > 60:
+            os.kill(pid, 9)
+            os.waitpid(pid, 0)
+            hung = True
+            break
+        _time.sleep(0.05)
+    try:
+        data = open(out, "rb").read()
+        res = pickle.loads(data) if data else None  # noqa: S301
+    finally:
+        os.remove(out)
+    if hung or res is None:
+        return [({"kind": "hang", **base}, f"{cfg} {fault} with profile=True: the run did not end within 60 s")]
+    if "harness" in res:
+        raise RuntimeError(res["harness"])
+    outv = []
+    if res["raised"] is None:
+        outv.append(({"kind": "failure-swallowed", **base}, f"{cfg} {fault} with profile=True: the failure did not surface"))
+    elif not res["same"]:
+        outv.append(({"kind": "exception-changed", "got": res["raised"], **base}, f"{cfg} {fault} with profile=True: caller got {res['raised']}"))
+    if res["alive"]:
+        outv.append(({"kind": "threads-left-running", **base},
+                     f"{cfg} {fault} with profile=True: threads still running after the failure surfaced: {res['alive']} (the interpreter cannot exit)"))
+    return outv
 
 
 def generations(spec):
@@ -371,6 +440,9 @@ def plan(tier, seed):
                     if mode == "sequential-progress" and exc != "ValueError":
                         continue
                     units.append(("map-sequential-and-thread-pool", ("map", {"pipe": pipe, "mode": mode, "storage": storage}, {"func": fname, "call": k, "exc": exc}, None)))
+            for exc in EXC_SEQUENTIAL_ONLY:
+                units.append(("map-sequential-and-thread-pool", ("map", {"pipe": pipe, "mode": "sequential", "storage": "dict"}, {"func": fname, "call": k, "exc": exc}, None)))
+            for exc in EXC:
                 if tier == "thorough":
                     units.append(("map-process-pool", ("map", {"pipe": pipe, "mode": "process", "storage": "file_array"}, {"func": fname, "call": k, "exc": exc}, None)))
             for mode in ("deferred-sync", "deferred-async"):
@@ -378,6 +450,9 @@ def plan(tier, seed):
                     units.append((f"map-deferred-executor-deviations<={bound}", ("dfs", {"pipe": pipe, "mode": mode, "storage": storage, "exec": ex}, {"func": fname, "call": k, "exc": "ValueError"}, bound)))
             for exc in ("KeyError", "Custom"):
                 units.append((f"map-deferred-executor-deviations<={bound}", ("dfs", {"pipe": pipe, "mode": "deferred-sync", "storage": "dict", "exec": "one"}, {"func": fname, "call": k, "exc": exc}, 0)))
+    for fname, k in map_faults("two-maps-reduce"):
+        if k == 1:
+            units.append(("map-sequential-and-thread-pool", ("profile", {"pipe": "two-maps-reduce"}, {"func": fname, "call": 1, "exc": "ValueError"})))
     stages = ["N1", "N2", "N2-decorated"] if tier == "quick" else ["N1", "N2", "N2-decorated", "N3"]
     for st in stages:
         n = sum(1 for _ in c02.specs_for(st))
@@ -397,6 +472,13 @@ def plan(tier, seed):
 def run_unit(unit):
     acc = Acc()
     kind = unit[0]
+    if kind == "profile":
+        _, cfg, fault = unit
+        acc.case(hash(("profile", str(cfg), str(fault))))
+        acc.stratum("map-sequential-profile")
+        for sig, text in profile_fault_case(cfg, fault):
+            acc.violation(sig, {"kind": "profile", "cfg": cfg, "fault": fault}, text)
+        return acc
     if kind == "map":
         _, cfg, fault, _ = unit
         acc.case(hash(str((cfg, fault))) if fault["call"] > 1 or fault["func"] != "f" else None)
@@ -449,6 +531,8 @@ def run_unit(unit):
 
 
 def replay(art):
+    if art["kind"] == "profile":
+        return [s for s, _ in profile_fault_case(art["cfg"], art["fault"])]
     if art["kind"] == "dag2":
         return [s for s, _ in run_dag_two_faults(art["spec"], art["out"], art["kw"], art["first"], art["second"])]
     if art["kind"] == "dag":
